@@ -97,6 +97,12 @@ CLAIMED = {
         "text": "C17_drop_once_no_release / C17_into_inner_moves / C17_leak_never_drops / C17_new_one_alloc / C17_array_slice_roundtrip / C17_downcast_iff_tag / C17_life; generated scenarios (new_in, pin_in, into_inner, into_raw/from_raw, leak, downcast matching and not, Vec/boxed slice/array conversions, from_iter_in, zero-sized values, comparisons/hash/format/iterator forwarding) are run on bumpalo's Box and std's Box with a drop ledger, the arena's getters and the global-allocator log. Partial: the model is deliberately thin; trait forwarding is differential-only.",
         "design_ref": "DESIGN.md §6 C17",
     },
+    "C05": {
+        "engine": "borrow",
+        "technique": "Coq proof (soundness of the borrow discipline the public signatures impose, over a client language with a run-time misuse semantics) + signature facts regenerated from /repo/src + compile-probe correspondence against rustc",
+        "text": "C05_accepted_programs_never_misuse / C05_misuse_is_rejected (every program of the client language, any length), the misuse families in every context (C05_use_after_reset, C05_iterator_survives_reset, C05_outlives_or_moved_arena, C05_iterator_outlives_arena, C05_alloc_during_iteration, C05_no_sharing_between_threads, C05_collections_not_sent, C05_thread_bounds), the ordinary patterns for every n (C05_many_allocations_alive, C05_idle_arena_moves_to_thread) and C05_each_fact_needed. actual_facts is re-read from the source text on every run (tools/sigfacts.py -> SigFactsActual.v, obligation facts_ok actual_facts in SigFactsOk.v). The tie between `accepts actual_facts` and the compiler is the probe: every well-scoped program up to 3 (quick) / 4-5 (thorough) statements over 10 kinds of arena-backed value (references, str, slices, Vec, String, Box, with and without their destructors) is rendered to Rust and type/borrow-checked by rustc against the crate built from /repo; rustc's verdict is compared with the extracted `accepts`, and any compiled program whose `drun` is false is a failing input. Partial: the language has one arena and no functions/structs; richer shapes (returning from functions, into_bump_slice, leak, drain, Box<Bump>) are fixed negative/ordinary probes, not theorems.",
+        "design_ref": "DESIGN.md §6 C05",
+    },
     "C18": {
         "technique": "Coq proof (capacity lemmas by induction over request lists; doubling of the first candidate of the sizing policy) + correspondence of request sizes",
         "text": "C18_capacity_honoured / C18_capacity_exact / C18_with_capacity_size / C18_growth_doubles. " + ARENA_TEXT + "Partial: the logarithmic bound on request counts, the constant-factor bound on held memory and the Vec/String reservation clauses are not yet theorems.",
@@ -153,6 +159,9 @@ def main():
             "add_only": True,
         },
         "engines": [
+            {"name": "borrow", "path": "coq/Borrow*.v + coq/SigFacts*.v + tools/sigfacts.py + tools/borrow_probe.py + ocaml/borrow_check.ml",
+             "serves_properties": ["C05"],
+             "kind_free_text": "client-language model of borrowing with a soundness theorem; facts parsed from the signatures; rustc compile probe of every small program compared with the extracted acceptance function"},
             {"name": "box", "path": "coq/BoxModel.v + harness/src/bin/box_driver.rs + ocaml/box_check.ml",
              "serves_properties": ["C17"],
              "kind_free_text": "ownership model of Box with theorems; differential execution against std::boxed::Box with drop ledger and arena observations"},
@@ -161,7 +170,7 @@ def main():
              "kind_free_text": "Coq theory of well-formed UTF-8, char boundaries and the lossy decoder; differential execution against std::string::String, core::str::from_utf8, from_utf8_lossy, from_utf16"},
             {"name": "vec", "path": "coq/Vec*.v + harness/src/bin/vec_driver.rs + ocaml/vec_check.ml",
              "serves_properties": ["C13", "C15", "C16", "C19"],
-             "kind_free_text": "Coq model of Vec/RawVec with refinement theorems; differential execution against std::vec::Vec and the extracted model; drop ledger"},
+             "kind_free_text": "Coq model of Vec/RawVec with refinement theorems; differential execution against std::vec::Vec and the extracted model; drop ledger; zero-sized element section; C15/C16 also consume the string and box engines' reports"},
             {"name": "arena", "path": "coq/Arena*.v + harness/src/bin/arena_driver.rs + ocaml/arena_check.ml",
              "serves_properties": ["C01", "C02", "C03", "C04", "C06", "C07", "C08", "C09", "C10", "C11", "C12", "C18", "C20"],
              "kind_free_text": "Coq model of Bump with theorems; differential execution of the extracted model against the real crate; extracted spec predicates evaluated on the implementation's observations"},
